@@ -132,6 +132,9 @@ func fieldWritesIn(fn *ssa.Function) map[string]bool {
 
 func C15(c *Ctx) {
 	c.Note("equality of reloaded and in-memory state; crash atomicity of WriteFile+Rename without fsync; semantics of each edit's apply (only coverage, order and locking are decided)")
+	manifestAppendRollbackGroup(c, "K2.failed-manifest-append-rolled-back")
+	snapshotLosslessGroup(c, "K6.snapshot-carries-every-field")
+	manifestOpenersVerifyGroup(c, "K11.manifest-openers-verify-first")
 	const r1 = "K5.edit-type-exhaustive"
 	c.Rule(r1, "manifest.writeEdit, decodeEdit and Manager.apply each handle every declared EditType constant (sets equal); requiresSync classifies exactly the table/WAL/value-log edits as sync-required")
 	we := c.Fn("manifest", "writeEdit")
